@@ -1,4 +1,5 @@
 import GraphSlam.Props.C06.Fixed
 import GraphSlam.Props.C03.Assembled
+import GraphSlam.Props.E2E.Step
 
 /-! C06 — umbrella (`fixed_column_zero`, `fixed_diagonal_identity`: the reduced system, in `Props/C03/Assembled.lean`). -/
